@@ -58,7 +58,8 @@ def plan(tier):
         kinds = ["snap", "rm", "revert"]
         pres = ["three", "four-marked", "stale-links"]
         out = [mk_vcase(k, p) for k in kinds for p in pres]
-        out += [mk_vcase("snap", "fresh"), mk_vcase("prep", "three"), mk_vcase("checkpoint", "one")]
+        out += [mk_vcase("snap", "fresh"), mk_vcase("checkpoint", "one")]
+        out += [mk_vcase(k, "three") for k in ("prep", "resize", "rebuilding", "close", "open", "write")]
         return out
     kinds = ["snap", "rm", "revert", "prep", "resize", "checkpoint", "rebuilding", "close", "open", "write"]
     pres = ["fresh", "one", "three", "four-marked", "reverted", "stale-links", "stale-oldhead"]
@@ -133,6 +134,8 @@ def run_plan(ctx, metabin, victim, vcases, tag="v", only=None):
     for i, (vc, info) in enumerate(zip(vcases, results)):
         if not info["trace_ok"]:
             drift.append(dict(kind="trace", vc=vc, info=info))
+        if vc.get("stage_note"):
+            drift.append(dict(kind="trace", vc=vc, info=dict(info, note=vc["stage_note"])))
         if dur.get(i) is False:
             concrete.append(dict(kind="durable", vc=vc, info=info))
         if info["trace_ok"] and not info.get("evaluated") and only is None:
@@ -143,7 +146,7 @@ def run_plan(ctx, metabin, victim, vcases, tag="v", only=None):
             if not r["oracle"]:
                 sh = shape_of(vc, r)
                 (known if sh else concrete).append(dict(kind="oracle", vc=vc, run=r, shape=sh))
-            elif r["ddiff"] or r["odiff"] or not r["res_agree"] or r["mside"] != r["iside"]:
+            elif info["trace_ok"] and (r["ddiff"] or r["odiff"] or not r["res_agree"] or r["mside"] != r["iside"]):
                 drift.append(dict(kind="run", vc=vc, run=r))
     return results, concrete, known, drift
 
